@@ -421,6 +421,43 @@ func TestC19(t *testing.T) {
 				rec("origin target %d -> mocked %d origin %d", oi, tf(k), origin(5))
 			})
 		}
+		// origin placeholders so small that the relocated head only fits because the padding behind them counts
+		for oi, tf := range originTargets {
+			oi, tf := oi, tf
+			try(fmt.Sprintf("origin target %d, tiny placeholder", oi), func() {
+				ob := mocker.Create()
+				defer ob.Reset()
+				ph := tinyPlaceholders[oi]
+				ob.Func(tf).Origin(ph).Apply(func(i int) int { return (*ph)(i) + 200 })
+				rec("origin target %d, tiny placeholder -> mocked %d origin %d", oi, tf(k), (*ph)(5))
+			})
+		}
+		// callbacks that panic with nil (in a module below go 1.21 recover() then yields nil): the call is still unwound
+		for _, pn := range []struct {
+			name string
+			set  func(pb *mocker.Builder)
+			call func() string
+		}{
+			{"function with a result", func(pb *mocker.Builder) { pb.Func(F1).Apply(func(a int) int { panic(nil) }) }, func() string { return fmt.Sprint(F1(k)) }},
+			{"function without results", func(pb *mocker.Builder) { pb.Func(FNone).Apply(func(a int) { panic(nil) }) }, func() string { FNone(k); return "returned" }},
+			{"method", func(pb *mocker.Builder) {
+				pb.Struct(&T{}).Method("M").Apply(func(t *T, a int, s string) int { panic(nil) })
+			}, func() string { return fmt.Sprint((&T{v: 1}).M(k, "m")) }},
+			{"function with a result, real panic value", func(pb *mocker.Builder) { pb.Func(F1).Apply(func(a int) int { panic("boom") }) }, func() string { return fmt.Sprint(F1(k)) }},
+		} {
+			pb := mocker.Create()
+			pn.set(pb)
+			func() {
+				normal, out := false, ""
+				defer func() {
+					r := recover()
+					rec("callback panics (%s): returned normally=%v result=%q recovered=%v", pn.name, normal, out, r)
+				}()
+				out = pn.call()
+				normal = true
+			}()
+			pb.Reset()
+		}
 		try("iface unmocked method", func() {
 			var j I
 			b2 := mocker.Create()
@@ -632,3 +669,17 @@ func ot5(i int) int {
 	sinkD = 0x0606060606060604
 	return i + 1
 }
+
+//go:noinline
+func FNone(a int) { sinkE = int32(a) }
+
+var (
+	tinyPh0 = func(i int) int { return i - 1 }
+	tinyPh1 = func(i int) int { return i - 2 }
+	tinyPh2 = func(i int) int { return i - 3 }
+	tinyPh3 = func(i int) int { return i - 4 }
+	tinyPh4 = func(i int) int { return i - 5 }
+	tinyPh5 = func(i int) int { return i - 6 }
+
+	tinyPlaceholders = []*func(int) int{&tinyPh0, &tinyPh1, &tinyPh2, &tinyPh3, &tinyPh4, &tinyPh5}
+)
